@@ -668,6 +668,11 @@ func (m *Machine) binop(st *State, fr *Frame, ins ssa.Instruction, op token.Toke
 	}
 	// int mode: mathematical integers; signed overflow is an obligation, unsigned arithmetic wraps
 	wrap := func(r *Term) *Term {
+		if signed && m.fc != nil && m.fc.OvfWrap {
+			mod := new(big.Int).Lsh(big.NewInt(1), uint(w))
+			half := new(big.Int).Rsh(mod, 1)
+			return c.ISub(c.IMod(c.IAdd(r, c.IntBig(half)), c.IntBig(mod)), c.IntBig(half))
+		}
 		if signed {
 			m.oblige(st, fr, "ovf."+op.String(), fmt.Sprint(ord), m.inRange(ta, r), m.safeTags(), "arithmetic stays within "+ta.String())
 			return r
